@@ -36,3 +36,13 @@ class Obligation:
     note: str = ""
     finding: Optional[str] = None    # id in known_findings.json for expect="violated"
     search: bool = False             # explicitly non-exhaustive search obligation (R8)
+
+
+def pick(table, i):
+    """R9 early concretisation: returns table[i] for a symbolic index i by forking once per feasible index, so the result
+    (and everything computed from it) is concrete.  Plain `table[i]` lets CrossHair build a symbolic element for tables of
+    ints/bytes, which then flows into to_bytes/xor/shift code and makes paths very slow."""
+    for k in range(len(table)):
+        if i == k:
+            return table[k]
+    raise AssertionError("index out of range (missing leading assumption)")
